@@ -120,6 +120,10 @@ class C06(F.PropCheck):
                     cls = 'BURST-TIMED-SET' if (drops and timed_cd and qprev == (0, 0)) else ('QUEUE-FULL' if drops else None)
                     expect_res.append((k, ch, sender & 0xFFFFFFFF if sender < 0 else sender, 1 if level(i) == want else 0, cls))
                     if cls: blame[ch] = cls
+                else:
+                    # no such relay channel: the device still answers (Success = 0); not part of the statement, kept to stay in step
+                    sender = e[1][3] if e[0] == 'SETV' else 0
+                    expect_res.append((k, ch, sender & 0xFFFFFFFF if sender < 0 else sender, 0, 'QUEUE-FULL' if drops else None))
             elif drops:
                 for r in rel: blame.setdefault(r[1], 'QUEUE-FULL')
             q = seg[-1][1]; qprev = (q[1], q[2])
